@@ -34,6 +34,8 @@ TREES = {
     "order": T(B("A", L("X"), L("Y"), L("Zed", d=True)), B("B", B("A", L("A")), L("C")), L("X")),
     # root-level default branch with nested default branch
     "rootdef": T(B("D", L("P"), B("Q", L("R"), B("S", L("T"), d=True)), d=True), L("E")),
+    # two directly nested default branches with named nodes below both (SOURce:VOLTage[:LEVel][:IMMediate]:OFFSet)
+    "nested2": T(B("SOUR", B("LEV", B("IMM", L("OFFS"), L("AMPL", d=True), d=True), L("Q"), d=True), L("R")), L("*CLS")),
 }
 
 
